@@ -11,19 +11,24 @@
   * `toRes b`         = `.ok ()` if `b` else `.error .notMatched`.
   * every operator theorem says: lungo's operator = the §8.3 predicate over `Spec.leafs`/`Spec.cand`.
 
-  KNOWN DEVIATIONS of lungo from §8.3 INSIDE the core domain (observed on the real code by stream
-  `specmatch`, witnesses in its corpus, recorded as known findings): D3 `$size` below two
-  fan-outs, D5 `$all` over a fan-out with array-valued candidates. Therefore the full statement
+  KNOWN DEVIATION of lungo from §8.3 INSIDE the core domain (observed on the real code by stream
+  `specmatch`, witnesses in its corpus, recorded as a known finding): D3 `$size` below two
+  fan-outs. Therefore the full statement
 
       -- theorem match_agrees_core : core d q = true → Match sch d q = Spec.matches sch d q
 
   is FALSE for the current code, and what is proved is `match_agrees_core_partial` on
-  `coreProved` = `core` minus exactly D3 and D5 (`Spec.coreC` with `ex = true`); the two operator
-  theorems concerned are named `_partial` and carry the excluding hypothesis explicitly.
-  (History: D1 `$type` null on absent fields, D2 `$exists` over fan-outs reaching only empty arrays
-  and D4 `$elemMatch` field form on non-document elements were deviations found here and have been
-  fixed in the code; D6 Decimal128 `$exists` arguments and D7 `$all` with array members are domain
-  restrictions of §8.2(4), excluded from `core` itself.)
+  `coreProved` = `core` minus exactly D3 (`Spec.coreC` with `ex = true`); the operator theorem
+  concerned is named `_partial` and carries the excluding hypothesis explicitly.
+  (History — deviations found here and since FIXED IN THE CODE, now inside the proved domain:
+  D1 `$type` null on absent fields, D2 `$exists` over fan-outs reaching only empty arrays,
+  D4 `$elemMatch` field form on non-document elements, D5 `$all` over a fan-out with array-valued
+  candidates, D6 Decimal128 `$exists` arguments (lungo took every Decimal128, also zero, as truthy;
+  now ±0 of any exponent is falsy, NaN/Inf truthy: `existsArg_truthy` holds for every value),
+  D7 `$all` with array-valued members (`{a: {$all: [[1,2], 1]}}` on `a: [1,2]`). D5 and D7
+  disappeared together when `matchAll` was rewritten as the conjunction of the `$eq` conditions
+  of the members — law `all_is_conj_eq` in Props/C10.lean — so `$all` needs exactly the
+  restriction of `$eq` on each member.)
 -/
 import Lungo.Proofs.SpecAgreeRec
 import Lungo.Proofs.MatchTotal
@@ -89,11 +94,15 @@ theorem nin_agrees (sch : SchemaEval) (d : Doc) (path : String) (vs : List V) (h
     mOp sch d "$nin" path (.arr vs) = toRes (holdsC (.doc d) (splitPath path) (.nin vs)) := by
   rw [nin_is_not_in, in_agrees sch d path vs hd hv, negate_toRes, holdsC, holdsC]
 
-/-- `$exists arg`: `arg` truthy ⇔ there is a candidate (non-decimal `arg`: §8.2(4)) -/
-theorem exists_agrees (sch : SchemaEval) (d : Doc) (path : String) (arg : V) (hd : PathDom d path)
-    (hdec : isDec arg = false) :
+/-- lungo's reading of the `$exists` argument is MongoDB's truthiness (false, null and numeric zero
+    of any of the four numeric types are falsy) — for EVERY value -/
+theorem exists_arg_is_truthiness (arg : V) : existsArg arg = truthy arg :=
+  existsArg_truthy arg
+
+/-- `$exists arg`: `arg` truthy ⇔ there is a candidate (any `arg`, Decimal128 included) -/
+theorem exists_agrees (sch : SchemaEval) (d : Doc) (path : String) (arg : V) (hd : PathDom d path) :
     mOp sch d "$exists" path arg = toRes (holdsC (.doc d) (splitPath path) (.exists_ arg)) := by
-  rw [mOp_leaf sch d "$exists" path arg _ rfl, holdsC]; exact matchExists_agrees hd arg hdec
+  rw [mOp_leaf sch d "$exists" path arg _ rfl, holdsC]; exact matchExists_agrees hd arg
 
 /-- `$type ts`: some PRESENT leaf has one of the types (`missing` has no type); on a fan-out path
     the types are neither null nor array (§8.2(2)) -/
@@ -127,17 +136,13 @@ theorem size_agrees_partial (sch : SchemaEval) (d : Doc) (path : String) (v : V)
     mOp sch d "$size" path v = toRes (holdsC (.doc d) (splitPath path) (.size n)) := by
   rw [mOp_leaf sch d "$size" path v _ rfl, holdsC]; exact matchSize_agrees hd v n hp h2
 
-/-
-  theorem all_agrees : … is FALSE at D5 ({a: [{b: [1]}, {b: 2}]} vs {"a.b": {$all: [1, 2]}}).
--/
-/-- `$all vs`: `vs ≠ []` and every member equals some leaf (members are not arrays: §8.2(4)).
-    Missing for the full statement: array-valued candidates on paths that fan out (D5). -/
-theorem all_agrees_partial (sch : SchemaEval) (d : Doc) (path : String) (vs : List V) (hd : PathDom d path)
-    (hnf : fans (.doc d) (splitPath path) = false → vs.all (fun v => !v.isArr) = true)
-    (hfan : fans (.doc d) (splitPath path) = true →
-      vs.all scalarOperand = true ∧ (cand (.doc d) (splitPath path)).all (fun c => !c.1.isArr) = true) :
+/-- `$all vs`: `vs ≠ []` and every member equals some leaf — any members without a fan-out
+    (array-valued ones included: such a member equals the whole array value or an element), non-null
+    scalar members on a fan-out path (the restriction of `$eq`, §8.2(2)) -/
+theorem all_agrees (sch : SchemaEval) (d : Doc) (path : String) (vs : List V) (hd : PathDom d path)
+    (hfan : fans (.doc d) (splitPath path) = true → vs.all scalarOperand = true) :
     mOp sch d "$all" path (.arr vs) = toRes (holdsC (.doc d) (splitPath path) (.all vs)) := by
-  rw [mOp_leaf sch d "$all" path _ _ rfl, holdsC]; exact matchAll_agrees hd vs hnf hfan
+  rw [mOp_leaf sch d "$all" path _ _ rfl, holdsC]; exact matchAll_agrees hd vs hfan
 
 /-- `$mod [dv, r]`: some numeric leaf truncates to `n` with `n rem dv = r` (no Decimal128 leaves: §8.2(4)) -/
 theorem mod_agrees (sch : SchemaEval) (d : Doc) (path : String) (v : V) (dv r : Int) (hd : PathDom d path)
@@ -191,11 +196,11 @@ theorem nor_agrees (sch : SchemaEval) (d : Doc) (v : V) (e : Entry)
 /-! ### the recursive combination -/
 
 /-
-  FULL STATEMENT (false for the current code because of D1–D7, see the header):
+  FULL STATEMENT (false for the current code because of D3, see the header):
   theorem match_agrees_core (sch : SchemaEval) (d q : Doc) (h : core d q = true) :
       Match sch d q = Spec.matches sch d q
 -/
-/-- AGREEMENT on the core domain minus the seven known deviation points: the matcher returns the
+/-- AGREEMENT on the core domain minus the one known deviation point D3: the matcher returns the
     truth value (or the `$jsonSchema` evaluator's error) the reference semantics defines. -/
 theorem match_agrees_core_partial (sch : SchemaEval) (d q : Doc) (h : coreProved d q = true) :
     Match sch d q = Spec.matches sch d q := by
@@ -265,6 +270,23 @@ example (path : String) (h : splitPath path = ["a"]) :
     cand (.doc [("b", .i32 1)]) (splitPath path) = [] := by
   refine ⟨⟨by decide, by rw [h]; decide⟩, by rw [h]; decide, by rw [h]; decide⟩
 
+/-- a fan-out instance of the hypotheses of `all_agrees` (the former D5 witness):
+    {a: [{b: [1]}, {b: 2}]}, "a.b", members [1, 2] -/
+example (path : String) (h : splitPath path = ["a", "b"]) :
+    PathDom [("a", .arr [.doc [("b", .arr [.i32 1])], .doc [("b", .i32 2)]])] path ∧
+    fans (.doc [("a", .arr [.doc [("b", .arr [.i32 1])], .doc [("b", .i32 2)]])]) (splitPath path) = true ∧
+    [V.i32 1, V.i32 2].all scalarOperand = true := by
+  refine ⟨⟨by decide, by rw [h]; decide⟩, by rw [h]; decide, rfl⟩
+
+/-- a no-fan-out instance with an array-valued member (the former D7 witness): {a: [1, 2]}, "a",
+    members [[1, 2], 1] — the hypothesis about members is vacuous here, nothing is required of them -/
+example (path : String) (h : splitPath path = ["a"]) :
+    PathDom [("a", .arr [.i32 1, .i32 2])] path ∧
+    (fans (.doc [("a", .arr [.i32 1, .i32 2])]) (splitPath path) = true →
+      [V.arr [.i32 1, .i32 2], V.i32 1].all scalarOperand = true) := by
+  refine ⟨⟨by decide, by rw [h]; decide⟩, ?_⟩
+  rw [h]; intro hf; exact absurd hf (by decide)
+
 -- whole pairs inside the proved domain, both sides evaluated (true and false outcomes, fan-out, $elemMatch, $nor)
 #guard coreProved [("a", .arr [.doc [("b", .i32 1)], .doc [("b", .arr [.i32 2, .i32 3])], .i32 5])] [("a.b", .doc [("$gt", .i32 2)])]
 #guard (Match schemaUnmodelled [("a", .arr [.doc [("b", .i32 1)], .doc [("b", .arr [.i32 2, .i32 3])], .i32 5])] [("a.b", .doc [("$gt", .i32 2)])]) matches .ok true
@@ -282,13 +304,56 @@ example (path : String) (h : splitPath path = ["a"]) :
 #guard coreProved [("a", .arr [.i32 1])] [("a", .doc [("$elemMatch", .doc [("b", .null)])])]
 #guard (Match schemaUnmodelled [("a", .arr [.i32 1])] [("a", .doc [("$elemMatch", .doc [("b", .null)])])]) matches .ok false
 #guard (Spec.matches schemaUnmodelled [("a", .arr [.i32 1])] [("a", .doc [("$elemMatch", .doc [("b", .null)])])]) matches .ok false
--- the remaining deviation D3 on a concrete pair: inside `core`, outside `coreProved`, the two sides differ
+-- the one remaining deviation D3 on a concrete pair: inside `core`, outside `coreProved`, the two sides differ
 #guard core [("a", .arr [.doc [("b", .arr [.doc [("c", .i32 1)], .doc [("c", .i32 2)]])]])] [("a.b.c", .doc [("$size", .i32 2)])]
 #guard !coreProved [("a", .arr [.doc [("b", .arr [.doc [("c", .i32 1)], .doc [("c", .i32 2)]])]])] [("a.b.c", .doc [("$size", .i32 2)])]
 #guard (Match schemaUnmodelled [("a", .arr [.doc [("b", .arr [.doc [("c", .i32 1)], .doc [("c", .i32 2)]])]])] [("a.b.c", .doc [("$size", .i32 2)])]) matches .ok true
 #guard (Spec.matches schemaUnmodelled [("a", .arr [.doc [("b", .arr [.doc [("c", .i32 1)], .doc [("c", .i32 2)]])]])] [("a.b.c", .doc [("$size", .i32 2)])]) matches .ok false
--- D6 and D7 are outside `core`
-#guard !core [("a", .i32 1)] [("a", .doc [("$exists", .dec 0x3040000000000000 0)])]
-#guard !core [("a", .arr [.i32 1, .i32 2])] [("a", .doc [("$all", .arr [.arr [.i32 1, .i32 2], .i32 1])])]
+-- the former deviations D5, D6, D7 on their witnesses: now inside the proved domain, both sides agree
+-- D5: {a: [{b: [1]}, {b: 2}]} vs {"a.b": {$all: [1, 2]}}
+#guard coreProved [("a", .arr [.doc [("b", .arr [.i32 1])], .doc [("b", .i32 2)]])] [("a.b", .doc [("$all", .arr [.i32 1, .i32 2])])]
+#guard (Match schemaUnmodelled [("a", .arr [.doc [("b", .arr [.i32 1])], .doc [("b", .i32 2)]])] [("a.b", .doc [("$all", .arr [.i32 1, .i32 2])])]) matches .ok true
+#guard (Spec.matches schemaUnmodelled [("a", .arr [.doc [("b", .arr [.i32 1])], .doc [("b", .i32 2)]])] [("a.b", .doc [("$all", .arr [.i32 1, .i32 2])])]) matches .ok true
+#guard coreProved [("a", .arr [.doc [("b", .arr [.i32 1])], .doc [("b", .i32 2)]])] [("a.b", .doc [("$all", .arr [.i32 1, .i32 3])])]
+#guard (Match schemaUnmodelled [("a", .arr [.doc [("b", .arr [.i32 1])], .doc [("b", .i32 2)]])] [("a.b", .doc [("$all", .arr [.i32 1, .i32 3])])]) matches .ok false
+#guard (Spec.matches schemaUnmodelled [("a", .arr [.doc [("b", .arr [.i32 1])], .doc [("b", .i32 2)]])] [("a.b", .doc [("$all", .arr [.i32 1, .i32 3])])]) matches .ok false
+-- D6: {a: 1} vs {a: {$exists: <decimal>}} for 0, -0, 0E+3, the "11" combination form (read as 0), 1, NaN, Infinity, -Infinity
+#guard coreProved [("a", .i32 1)] [("a", .doc [("$exists", .dec 0x3040000000000000 0)])]
+#guard (Match schemaUnmodelled [("a", .i32 1)] [("a", .doc [("$exists", .dec 0x3040000000000000 0)])]) matches .ok false
+#guard (Spec.matches schemaUnmodelled [("a", .i32 1)] [("a", .doc [("$exists", .dec 0x3040000000000000 0)])]) matches .ok false
+#guard coreProved [("a", .i32 1)] [("a", .doc [("$exists", .dec 0xB040000000000000 0)])]
+#guard (Match schemaUnmodelled [("a", .i32 1)] [("a", .doc [("$exists", .dec 0xB040000000000000 0)])]) matches .ok false
+#guard (Spec.matches schemaUnmodelled [("a", .i32 1)] [("a", .doc [("$exists", .dec 0xB040000000000000 0)])]) matches .ok false
+#guard coreProved [("a", .i32 1)] [("a", .doc [("$exists", .dec 0x3046000000000000 0)])]
+#guard (Match schemaUnmodelled [("a", .i32 1)] [("a", .doc [("$exists", .dec 0x3046000000000000 0)])]) matches .ok false
+#guard (Spec.matches schemaUnmodelled [("a", .i32 1)] [("a", .doc [("$exists", .dec 0x3046000000000000 0)])]) matches .ok false
+#guard coreProved [("a", .i32 1)] [("a", .doc [("$exists", .dec 0x6000000000000000 5)])]
+#guard (Match schemaUnmodelled [("a", .i32 1)] [("a", .doc [("$exists", .dec 0x6000000000000000 5)])]) matches .ok false
+#guard (Spec.matches schemaUnmodelled [("a", .i32 1)] [("a", .doc [("$exists", .dec 0x6000000000000000 5)])]) matches .ok false
+#guard coreProved [("a", .i32 1)] [("a", .doc [("$exists", .dec 0x3040000000000000 1)])]
+#guard (Match schemaUnmodelled [("a", .i32 1)] [("a", .doc [("$exists", .dec 0x3040000000000000 1)])]) matches .ok true
+#guard (Spec.matches schemaUnmodelled [("a", .i32 1)] [("a", .doc [("$exists", .dec 0x3040000000000000 1)])]) matches .ok true
+#guard coreProved [("a", .i32 1)] [("a", .doc [("$exists", .dec 0x7C00000000000000 0)])]
+#guard (Match schemaUnmodelled [("a", .i32 1)] [("a", .doc [("$exists", .dec 0x7C00000000000000 0)])]) matches .ok true
+#guard (Spec.matches schemaUnmodelled [("a", .i32 1)] [("a", .doc [("$exists", .dec 0x7C00000000000000 0)])]) matches .ok true
+#guard coreProved [("a", .i32 1)] [("a", .doc [("$exists", .dec 0x7800000000000000 0)])]
+#guard (Match schemaUnmodelled [("a", .i32 1)] [("a", .doc [("$exists", .dec 0x7800000000000000 0)])]) matches .ok true
+#guard (Spec.matches schemaUnmodelled [("a", .i32 1)] [("a", .doc [("$exists", .dec 0x7800000000000000 0)])]) matches .ok true
+#guard coreProved [("a", .i32 1)] [("a", .doc [("$exists", .dec 0xF800000000000000 0)])]
+#guard (Match schemaUnmodelled [("a", .i32 1)] [("a", .doc [("$exists", .dec 0xF800000000000000 0)])]) matches .ok true
+#guard (Spec.matches schemaUnmodelled [("a", .i32 1)] [("a", .doc [("$exists", .dec 0xF800000000000000 0)])]) matches .ok true
+#guard coreProved [("b", .i32 1)] [("a", .doc [("$exists", .dec 0x3040000000000000 0)])]
+#guard (Match schemaUnmodelled [("b", .i32 1)] [("a", .doc [("$exists", .dec 0x3040000000000000 0)])]) matches .ok true
+#guard (Spec.matches schemaUnmodelled [("b", .i32 1)] [("a", .doc [("$exists", .dec 0x3040000000000000 0)])]) matches .ok true
+-- D7: {a: [1, 2]} vs {a: {$all: [[1, 2], 1]}} (the member [1, 2] equals the whole array, 1 an element)
+#guard coreProved [("a", .arr [.i32 1, .i32 2])] [("a", .doc [("$all", .arr [.arr [.i32 1, .i32 2], .i32 1])])]
+#guard (Match schemaUnmodelled [("a", .arr [.i32 1, .i32 2])] [("a", .doc [("$all", .arr [.arr [.i32 1, .i32 2], .i32 1])])]) matches .ok true
+#guard (Spec.matches schemaUnmodelled [("a", .arr [.i32 1, .i32 2])] [("a", .doc [("$all", .arr [.arr [.i32 1, .i32 2], .i32 1])])]) matches .ok true
+#guard coreProved [("a", .arr [.i32 1, .i32 2])] [("a", .doc [("$all", .arr [.arr [.i32 2, .i32 1], .i32 1])])]
+#guard (Match schemaUnmodelled [("a", .arr [.i32 1, .i32 2])] [("a", .doc [("$all", .arr [.arr [.i32 2, .i32 1], .i32 1])])]) matches .ok false
+#guard (Spec.matches schemaUnmodelled [("a", .arr [.i32 1, .i32 2])] [("a", .doc [("$all", .arr [.arr [.i32 2, .i32 1], .i32 1])])]) matches .ok false
+#guard coreProved [("a", .arr [.i32 1, .i32 2])] [("a", .doc [("$all", .arr [.arr [.i32 1, .i32 2], .i32 3])])]
+#guard (Match schemaUnmodelled [("a", .arr [.i32 1, .i32 2])] [("a", .doc [("$all", .arr [.arr [.i32 1, .i32 2], .i32 3])])]) matches .ok false
+#guard (Spec.matches schemaUnmodelled [("a", .arr [.i32 1, .i32 2])] [("a", .doc [("$all", .arr [.arr [.i32 1, .i32 2], .i32 3])])]) matches .ok false
 
 end Lungo.C10
